@@ -484,12 +484,10 @@ impl BRC20ProgEngine {
 
             core::mem::swap(&mut *db, evm.ctx().db_mut());
 
-            let cumulative_gas_used = self
-                .last_block_info
-                .read()
-                .gas_used
+            let block_gas_used = self.last_block_info.read().gas_used;
+            let cumulative_gas_used = block_gas_used
                 .checked_add(output.as_ref().map(|o| o.gas_used()).unwrap_or(0))
-                .unwrap_or(self.last_block_info.read().gas_used);
+                .unwrap_or(block_gas_used);
 
             let traces: TraceED = evm
                 .inspector()
@@ -961,12 +959,12 @@ impl BRC20ProgEngine {
         block_hash: B256,
         is_full: bool,
     ) -> Result<Option<BlockResponseED>, Box<dyn Error>> {
-        self.db.read_fn(|db| {
-            db.get_block_number(block_hash)?
-                .map_or(Ok(None), |block_number| {
-                    self.get_block_by_number(block_number.into(), is_full)
-                })
-        })
+        // Release the database lock before get_block_by_number takes it again: a second read lock on the
+        // same thread deadlocks as soon as a writer is waiting in between
+        let Some(block_number) = self.db.read().get_block_number(block_hash)? else {
+            return Ok(None);
+        };
+        self.get_block_by_number(block_number.into(), is_full)
     }
 
     pub fn get_contract_bytecode(
